@@ -10,6 +10,7 @@ from typing import (
     MutableMapping,
     Optional,
     Sequence,
+    Tuple,
     TypeVar,
     overload,
 )
@@ -107,36 +108,51 @@ def sort_by_order(
     order: Callable[[T], Optional[Ordering]],
 ) -> Sequence[T]:
     from apischema.objects.fields import get_field_name
+    from apischema.serialization.serialized_methods import get_serialized_methods
 
     order_overriding = get_order_overriding(cls)
-    groups: Dict[int, List[T]] = defaultdict(list)
-    after: Dict[str, List[T]] = defaultdict(list)
-    before: Dict[str, List[T]] = defaultdict(list)
-    for elt in elts:
-        ordering = order_overriding.get(name(elt), order(elt))
+    # Entries are (name, element, is placeholder); fields can be ordered relatively to
+    # serialized methods, which are not elements of all the views (e.g. deserialization
+    # schema), so they are added as placeholders in order not to lose these fields.
+    Entry = Tuple[str, Optional[T], bool]
+    entries: List[Tuple[Entry, Optional[Ordering]]] = [
+        ((name(elt), elt, False), order(elt)) for elt in elts
+    ]
+    elt_names = {entry[0] for entry, _ in entries}
+    if isinstance(cls, type):
+        for serialized, _ in get_serialized_methods(cls):
+            method_name = serialized.func.__name__
+            if method_name not in elt_names:
+                entries.append(((method_name, None, True), serialized.ordering))
+    groups: Dict[int, List[Entry]] = defaultdict(list)
+    after: Dict[str, List[Entry]] = defaultdict(list)
+    before: Dict[str, List[Entry]] = defaultdict(list)
+    for entry, ordering in entries:
+        ordering = order_overriding.get(entry[0], ordering)
         if ordering is None:
-            groups[0].append(elt)
+            groups[0].append(entry)
         elif ordering.order is not None:
-            groups[ordering.order].append(elt)
+            groups[ordering.order].append(entry)
         elif ordering.after is not None:
-            after[get_field_name(ordering.after, methods=True)].append(elt)
+            after[get_field_name(ordering.after, methods=True)].append(entry)
         elif ordering.before is not None:
-            before[get_field_name(ordering.before, methods=True)].append(elt)
+            before[get_field_name(ordering.before, methods=True)].append(entry)
         else:
             raise NotImplementedError
     if not after and not before and len(groups) == 1:
-        return next(iter(groups.values()))
-    result = []
+        return [elt for _, elt, placeholder in groups.popitem()[1] if not placeholder]  # type: ignore
+    result: List[T] = []
 
-    def add_to_result(elt: T):
-        elt_name = name(elt)
-        for before_elt in before[elt_name]:
-            add_to_result(before_elt)
-        result.append(elt)
-        for after_elt in after[elt_name]:
-            add_to_result(after_elt)
+    def add_to_result(entry: Entry):
+        entry_name, elt, placeholder = entry
+        for before_entry in before[entry_name]:
+            add_to_result(before_entry)
+        if not placeholder:
+            result.append(elt)  # type: ignore
+        for after_entry in after[entry_name]:
+            add_to_result(after_entry)
 
     for value in sorted(groups):
-        for elt in groups[value]:
-            add_to_result(elt)
+        for entry in groups[value]:
+            add_to_result(entry)
     return result
